@@ -132,6 +132,8 @@ def mk_reset(lib, cls, sides, extra_none=()):
 
     def post(c):
         items = []
+        if cls in ("Splitter", "Combiner"):
+            items.append(Def("state", VStr("SETUP_STATE"), ("C17",)))
         if cls == "Machine":
             items.append(Clause("state-rep-marks-setup", lambda c: z3.And(
                 z3.Not(c.new.f["state_rep"].isnone), c.new.f["state_rep"].val.items[0].t == -1,
